@@ -267,6 +267,53 @@ def sec_selfcheck(rep, seed):
     rep.add(Ob("C13/selfcheck/canary-refuted", "canary", PROVED if o.status == REFUTED else "error", "ratfun", o.seconds, f"wrong variant: {o.status}; replay confirmed={o.replay.get('confirmed')}"))
 
 
+def sec_xs_conjugation(rep):
+    """Cross-section level of the conjugation relations: with abstract structure functions,
+    sigma(antiparticle beam)[F2, FL, -xF3] == sigma(particle beam)[F2, FL, xF3] order key by order key,
+    through the REAL EvaluatedCrossSection.get_result on both beams (no spec formula involved)."""
+    from yadism.esf import exs
+    from yadism.esf.result import ESFResult
+    from .c11 import UNPOL, kin_pre, _FakeSF
+
+    rep.under_contract(exs.EvaluatedCrossSection.get_result)
+    keys = [(0, 0, 0, 0), (1, 0, 0, 0), (1, 0, 1, 0)]
+    for kind in UNPOL:
+        for part, anti in (("electron", "positron"), ("neutrino", "antineutrino")):
+            for flavor in ("total", "charm"):
+                rep.cases += 1
+                sy = H.Sy()
+
+                def case(sy, kind=kind, part=part, anti=anti, flavor=flavor):
+                    def sigma(proj, f3sign):
+                        cfg = H.make_configs(sy, process="NC", projectile=proj)
+                        kin = {"x": sy.x, "Q2": sy.Q2, "y": sy.y}
+
+                        def get_esf(on, k):
+                            sg = f3sign if on.kind == "F3" else 1
+                            return _FakeSF(ESFResult(k["x"], k["Q2"], 4, {key: (sg * sy.U("v", on.kind, str(key)), sy.U("e", on.kind, str(key))) for key in keys}))
+
+                        return exs.EvaluatedCrossSection(kin, H.obs_name(kind, flavor), cfg, get_esf).get_result()
+
+                    a, b = sigma(part, 1), sigma(anti, -1)
+                    out = [("order keys", sorted(b.orders), sorted(a.orders))]
+                    for key in a.orders:
+                        if key in b.orders:
+                            out.append((f"value{key}", b.orders[key][0], a.orders[key][0]))
+                    return out
+
+                extra = [Not(Eq(sy.y**2 / 2 + (1 - sy.y) - sy.M2target * (sy.x * sy.y) ** 2 / sy.Q2, 0))] if kind == "FW" else []
+                rep.check(f"C13/xs-conjugation/{kind}_{flavor}/{anti}[F2,FL,-xF3] = {part}[F2,FL,xF3]", case, sy, kin_pre(sy) + extra)
+
+
+def sec_sv_projectors(rep):
+    """The flavour-exchange symmetry of the scale-variation terms rests on the flavour-space
+    projectors of the point's own nf (a quark active only at the later point must not drop out):
+    the shared-manager RGE history contract of C05, re-discharged here."""
+    from . import c05
+
+    c05.sec_rge_shared(rep)
+
+
 def run(rep, tier, seed, only=None):
     rep.assume(
         "Z decoupling is read as eta_gammaZ -> 0 (MZ -> infinity at fixed Q2, sin2theta_w): proved as 'NC weight at eta=0 equals EM weight' plus 'eta*(MZ2+Q2) independent of MZ2'",
@@ -275,7 +322,7 @@ def run(rep, tier, seed, only=None):
         "A-np: numpy object-dtype arithmetic is the real reading of float64 arithmetic",
     )
     rep.stub("Combiner: eko nf_default -> enumerated nf (contract: C06)", "CouplingConstants.get_weight -> uninterpreted w (kernel-level lemmas)")
-    secs = [("decoupling", sec_decoupling), ("positron", sec_positron), ("cc", sec_cc_conjugation), ("flavour", sec_flavour_symmetry), ("tagged", sec_flavour_symmetry_tagged)]
+    secs = [("decoupling", sec_decoupling), ("positron", sec_positron), ("cc", sec_cc_conjugation), ("flavour", sec_flavour_symmetry), ("tagged", sec_flavour_symmetry_tagged), ("xsconj", sec_xs_conjugation), ("svprojectors", sec_sv_projectors)]
     for nm, f in secs:
         if only and only not in nm:
             continue
